@@ -738,7 +738,8 @@ func (d MarchingCanvas) MarchOnAttribute(attribute string, cutoff float64) model
 			return marched.
 				Transform(
 					meshops.ScaleAttribute3DTransformer{
-						Amount: vector3.One[float64]().DivByConstant(d.cubesPerUnit),
+						Attribute: attribute,
+						Amount:    vector3.One[float64]().DivByConstant(d.cubesPerUnit),
 					},
 				).
 				WeldByFloat3Attribute(attribute, 3)
@@ -761,7 +762,8 @@ func (d MarchingCanvas) MarchOnAttributeParallel(attribute string, cutoff float6
 			return marched.
 				Transform(
 					meshops.ScaleAttribute3DTransformer{
-						Amount: vector3.One[float64]().DivByConstant(d.cubesPerUnit),
+						Attribute: attribute,
+						Amount:    vector3.One[float64]().DivByConstant(d.cubesPerUnit),
 					},
 				).
 				WeldByFloat3Attribute(attribute, 3)
